@@ -8,6 +8,7 @@ import (
 	"go/token"
 	"go/types"
 	"math"
+	"sort"
 
 	"golang.org/x/tools/go/ssa"
 )
@@ -249,7 +250,27 @@ func (p *Prog) closureParamRange(fn *ssa.Function, i int) (float64, float64, boo
 						if x.Call.Value != v || i >= len(x.Call.Args) {
 							return 0, 0, false
 						}
-						l, h := ppr.rangeOfLin(ppr.lin(x.Call.Args[i]))
+						al := ppr.lin(x.Call.Args[i])
+						l, h := ppr.rangeOfLin(al)
+						if l < -1e6 || h > 1e6 || math.IsInf(l, 0) || math.IsInf(h, 0) {
+							// bounds that hold at the call site because of dominating tests (a loop counter
+							// under its loop condition): try the constants the parent compares with
+							cands := comparisonConstants(par)
+							if l < -1e6 || math.IsInf(l, 0) {
+								for _, k := range cands { // ascending: keep the largest provable lower bound
+									if ppr.Prove(x.Block(), al.addConst(-k)) {
+										l = float64(k)
+									}
+								}
+							}
+							if h > 1e6 || math.IsInf(h, 0) {
+								for j := len(cands) - 1; j >= 0; j-- { // descending: keep the smallest provable upper bound
+									if ppr.Prove(x.Block(), al.scale(-1).addConst(cands[j])) {
+										h = float64(cands[j])
+									}
+								}
+							}
+						}
 						lo, hi = math.Min(lo, l), math.Max(hi, h)
 						found = true
 					default:
@@ -334,4 +355,31 @@ func (p *Prog) freeCellLen(fv *ssa.FreeVar) (int64, bool) {
 		}
 	}
 	return res, res >= 0
+}
+
+// comparisonConstants: 0 and every integer constant (and its neighbours) that fn compares something with, ascending.
+func comparisonConstants(fn *ssa.Function) []int64 {
+	set := map[int64]bool{0: true}
+	for _, b := range fn.Blocks {
+		for _, ins := range b.Instrs {
+			bo, ok := ins.(*ssa.BinOp)
+			if !ok {
+				continue
+			}
+			switch bo.Op {
+			case token.LSS, token.LEQ, token.GTR, token.GEQ, token.EQL, token.NEQ:
+				for _, o := range []ssa.Value{bo.X, bo.Y} {
+					if k, isC := constInt(o); isC {
+						set[k-1], set[k], set[k+1] = true, true, true
+					}
+				}
+			}
+		}
+	}
+	var out []int64
+	for k := range set {
+		out = append(out, k)
+	}
+	sort.Slice(out, func(i, j int) bool { return out[i] < out[j] })
+	return out
 }
